@@ -549,6 +549,12 @@ func (r *runner) runJSONStore(k kase) {
 }
 
 func (r *runner) run(k kase) {
+	defer func() {
+		if p := recover(); p != nil {
+			// a panic of the code under test that escaped the per-operation recover
+			r.e.Rep.Violate("panic/"+k.Kind, fmt.Sprintf("panic while running a %s case: %v", k.Kind, p), k)
+		}
+	}()
 	switch k.Kind {
 	case "varint":
 		r.runVarint(k)
@@ -915,6 +921,11 @@ func main() {
 	// suspicion (j): a short-reading reader changes the tree, and can even lose data; no production
 	// caller passes one (every caller of SerializeBytesToAddr uses bytes.NewReader) -> note only
 	func() {
+		defer func() {
+			if p := recover(); p != nil {
+				e.Rep.Note(fmt.Sprintf("short-reading reader probe panicked: %v", p))
+			}
+		}()
 		data := dataOf(rdesc(10000, 9999, 33))
 		_, h1, _ := tree.SerializeBytesToAddr(ctx, r.ns, bytes.NewReader(data), len(data))
 		_, h2, _ := tree.SerializeBytesToAddr(ctx, r.ns, iotest.HalfReader(bytes.NewReader(data)), len(data))
